@@ -18,3 +18,10 @@ func lemmaCheckDecodeEncode(input []byte, version byte) ([]byte, byte, error) {
 	s := CheckEncode(input, version)
 	return CheckDecode(s)
 }
+
+// Encode(Decode(s)) == s for every string over the Base58 alphabet: together with lemmaDecodeEncode,
+// Encode and Decode are mutually inverse bijections between byte strings and alphabet strings.
+func lemmaEncodeDecode(s string) string {
+	r := Decode(s)
+	return Encode(r)
+}
